@@ -21,6 +21,7 @@ import sys
 from common import REPO, VERIF, run
 
 CACHE = os.path.join(VERIF, ".cache", "replay")
+CACHE_NIGHTLY = os.path.join(VERIF, ".cache", "replay_nightly")   # const-generic histogram (feature nightly, cargo +nightly)
 CACHE_SERDE = os.path.join(VERIF, ".cache", "replay_serde")   # same, with the crate's `serde` feature and serde_json (float_roundtrip)
 
 
@@ -34,6 +35,13 @@ def uses_serde(prog):
 
 MOMENT_TYPES = {"Moments4": None, "M4": 4, "M5": 5, "M6": 6, "M8": 8, "M10": 10}
 HIST_TYPES = {"Histogram10": None, "H1": 1, "H2": 2, "H3": 3, "H4": 4, "H33": 33, "H100": 100}
+CONST_HIST = {"HC1": 1, "HC2": 2, "HC3": 3, "HC4": 4}       # average::histogram_const::Histogram<LEN>
+
+
+def uses_nightly(prog):
+    if prog.get("type") in CONST_HIST:
+        return True
+    return any(op[0] in ("merge", "add_assign") and uses_nightly(op[1]) for op in prog.get("ops", []))
 
 
 def bits(x):
@@ -72,6 +80,8 @@ class Gen:
         v = self.fresh()
         c = prog.get("ctor", ["new"])
         tn = "hist_%s::Histogram" % t.lower() if t in HIST_TYPES and HIST_TYPES[t] else t
+        if t in CONST_HIST:
+            tn = "average::histogram_const::Histogram::<%d>" % CONST_HIST[t]
         if c[0] == "new":
             args = ", ".join(lit(float(a)) for a in c[1:])
             self.lines.append("let mut %s = %s::new(%s);" % (v, tn, args))
@@ -91,7 +101,7 @@ class Gen:
             raise ValueError("ctor " + str(c))
         for op in prog.get("ops", []):
             if op[0] == "add":
-                if t in HIST_TYPES:
+                if t in HIST_TYPES or t in CONST_HIST:
                     self.lines.append("println!(\"add_result={:?}\", %s.add(%s).is_ok());" % (v, lit(float(op[1]))))
                 else:
                     self.lines.append("%s.add(%s);" % (v, lit(float(op[1]))))
@@ -187,8 +197,8 @@ def render(prog):
     return render_many([prog])
 
 
-def ensure_crate(serde=False):
-    cache = CACHE_SERDE if serde else CACHE
+def ensure_crate(serde=False, nightly=False):
+    cache = CACHE_NIGHTLY if nightly else CACHE_SERDE if serde else CACHE
     os.makedirs(os.path.join(cache, "src"), exist_ok=True)
     toml = """[package]
 name = "vreplay"
@@ -205,7 +215,7 @@ average = { path = "%s"%s }
 num-traits = { version = "0.2", default-features = false, features = ["libm"] }
 %s
 [workspace]
-""" % (REPO, ', features = ["serde"]' if serde else "",
+""" % (REPO, ', features = ["nightly"]' if nightly else ', features = ["serde"]' if serde else "",
        'serde = { version = "1", features = ["derive"] }\nserde-big-array = "0.5"\nserde_json = { version = "1", features = ["float_roundtrip"] }\n' if serde else "")
     p = os.path.join(cache, "Cargo.toml")
     if not os.path.exists(p) or open(p).read() != toml:
@@ -250,9 +260,13 @@ def _parse_block(text):
 
 def run_programs(progs, timeout=600):
     """Compile all programs into one binary against /repo's current tree and run it."""
-    cache = ensure_crate(serde=any(uses_serde(p) for p in progs))
-    open(os.path.join(cache, "src", "main.rs"), "w").write(render_many(progs))
-    rc, out, secs = run(["cargo", "run", "--offline", "--quiet", "--release"], timeout, cwd=cache,
+    nightly = any(uses_nightly(p) for p in progs)
+    cache = ensure_crate(serde=any(uses_serde(p) for p in progs), nightly=nightly)
+    src = render_many(progs)
+    if nightly:
+        src = "#![feature(generic_const_exprs)]\n#![allow(incomplete_features)]\n" + src
+    open(os.path.join(cache, "src", "main.rs"), "w").write(src)
+    rc, out, secs = run(["cargo"] + (["+nightly"] if nightly else []) + ["run", "--offline", "--quiet", "--release"], timeout, cwd=cache,
                         env={"RUSTFLAGS": "-Awarnings"})
     if rc is None:
         return [{"obs": {}, "panic": None, "error": "timeout", "lists": {}, "raw": ""} for _ in progs]
